@@ -25,6 +25,9 @@ func (c *Ctx) tickers() (map[string]int64, int64) {
 			max = v
 			continue
 		}
+		if name == "PTickerInvalid" {
+			continue
+		}
 		out[strings.TrimPrefix(name, "PTicker")] = v
 	}
 	if max == 0 || len(out) < 10 {
